@@ -38,7 +38,13 @@ import (
 )
 
 func init() {
-	props["C03"] = func(r *Rec) { runC34(r, "C03"); recFor(r, "C03") }
+	props["C03"] = func(r *Rec) {
+		runC34(r, "C03")
+		recFor(r, "C03")
+		// the layer-2 bond episodes: block processing must not touch the recorded bonds of users of another dApp
+		c20For(r, "C03", map[string]string{"C20/end-block/bond-record-of-another-dapp-changed": "C03/block-processing/bond-record-of-a-non-signer-changed",
+			"C20/bootstrap-refund/own-bonder-underpaid": "C03/block-processing/bond-of-a-non-signer-lost", "C20/bootstrap-refund/not-in-full": "C03/block-processing/bond-of-a-non-signer-not-refunded"})
+	}
 	props["C04"] = func(r *Rec) {
 		runC34(r, "C04")
 		recFor(r, "C04")
